@@ -150,6 +150,10 @@ BINARY = {
 TERNARY = {
     "Kronecker3": lambda a, b, c: [["Kronecker", [a, b, c]]],
     "KronSum3": lambda a, b, c: [["KronSum", [a, b, c]]],
+    "BlockDiag3": lambda a, b, c: [["BlockDiag", [a, b, c], [1, 2, 1]]],
+    "Concat3": lambda a, b, c: [["Concat", [a, b, c], 0], ["Concat", [a, b, c], 1]],
+    "Sum3": lambda a, b, c: [["Sum", [a, b, c]]],
+    "Product3": lambda a, b, c: [["Product", [a, b, c]]],
 }
 
 
@@ -198,6 +202,18 @@ def _shape2(t, sa, sb):
 def _shape3(t, sa, sb, sc):
     if t[0] == "Kronecker":
         return (sa[0] * sb[0] * sc[0], sa[1] * sb[1] * sc[1])
+    if t[0] == "BlockDiag":
+        m = t[2]
+        return (sa[0] * m[0] + sb[0] * m[1] + sc[0] * m[2], sa[1] * m[0] + sb[1] * m[1] + sc[1] * m[2])
+    if t[0] == "Concat":
+        ax = t[2]
+        if not (sa[1 - ax] == sb[1 - ax] == sc[1 - ax]):
+            return None
+        return (sa[0] + sb[0] + sc[0], sa[1]) if ax == 0 else (sa[0], sa[1] + sb[1] + sc[1])
+    if t[0] == "Sum":
+        return sa if sa == sb == sc else None
+    if t[0] == "Product":
+        return (sa[0], sc[1]) if (sa[1] == sb[0] and sb[1] == sc[0]) else None
     if all(s[0] == s[1] for s in (sa, sb, sc)):
         return (sa[0] * sb[0] * sc[0], ) * 2
     return None
